@@ -582,6 +582,78 @@ def msEncCtl (s : MsEncSt) : MsEncReq → MsEncSt × Ret
     else (s, .okv id)
   | .unknown _ => (s, .err .unimplemented)
 
+/-! ### What `opus_multistream_encode_native` writes into the streams (opus_multistream_encoder.c:806-1020) -/
+
+/-- DSP / arithmetic dependent inputs of one multistream encode call. -/
+structure MsOracle where
+  rates : List Int          -- `bitrates[s]` from rate_allocation (:876)
+  bw : Int                  -- the bandwidth chosen for a surround encoder (:903-910)
+  lastRate : Option Int     -- CBR: OPUS_SET_BITRATE(curr_max*(8*Fs/frame_size)) on the last stream (:978-979)
+  reached : Nat             -- number of streams whose opus_encode_native was called (all, unless one failed)
+  obs : List EncObs         -- and the fields observed in each of those streams afterwards
+
+/-- First loop (:890-922): per-stream settings are written THROUGH opus_encoder_ctl, return codes
+    ignored — a refused value simply leaves the stream's setting as it was. -/
+def msPrep (s : MsEncSt) (i : Nat) (e : EncSt) (rate bw : Int) : EncSt :=
+  let e := (encCtl e (.set .bitrate rate)).1
+  if s.surround then
+    let e := (encCtl e (.set .bandwidth bw)).1
+    if (i : Int) < s.nbCoupled then
+      (encCtl (encCtl e (.set .forceMode MODE_CELT_ONLY)).1 (.set .forceChannels 2)).1
+    else e
+  else if s.ambisonics then (encCtl e (.set .forceMode MODE_CELT_ONLY)).1
+  else e
+
+/-- Second loop, before the stream's opus_encode_native (:968, :978-979). -/
+def msPre2 (s : MsEncSt) (i : Nat) (e : EncSt) (lastRate : Option Int) : EncSt :=
+  let e := if s.surround then (encCtl e (.setEnergyMask true)).1 else e
+  match lastRate with
+  | some r => if (i : Int) = s.nbStreams - 1 then (encCtl e (.set .bitrate r)).1 else e
+  | none => e
+
+/-- Early exits of opus_multistream_encode_native (:842-865): nothing has been written yet. -/
+def msEncodeEarly (s : MsEncSt) (frameSize maxDataBytes : Int) : Option Err :=
+  match s.streams with
+  | [] => some .badArg
+  | e0 :: _ =>
+    let f := frameSizeSelect frameSize s.variableDuration e0.fs
+    if f ≤ 0 then some .badArg
+    else
+      let smallest := s.nbStreams * 2 - 1 + (if e0.fs / f = 10 then s.nbStreams else 0)
+      if maxDataBytes < smallest then some .bufferTooSmall else none
+
+/-- State after `opus_multistream_encode*`: every stream is prepared; the streams reached by the
+    second loop additionally get the mask / last-stream bit-rate and the effect of their encode call. -/
+def msEncode (s : MsEncSt) (frameSize maxDataBytes : Int) (o : MsOracle) : MsEncSt :=
+  match msEncodeEarly s frameSize maxDataBytes with
+  | some _ => s
+  | none =>
+    { s with streams := s.streams.mapIdx (fun i e =>
+        let e1 := msPrep s i e (o.rates.getD i 0) o.bw
+        if i < o.reached then
+          match o.obs[i]? with
+          | some ob => encAdopt (msPre2 s i e1 o.lastRate) ob
+          | none => msPre2 s i e1 o.lastRate
+        else e1) }
+
+/-- The monitored contract of a multistream encode call: each reached stream's encode call meets
+    the single-stream contract (from the state it had right before the call), and no stream has
+    coded a frame before the first stream has. -/
+def msEncodeContract (s : MsEncSt) (frameSize maxDataBytes : Int) (o : MsOracle) : Bool :=
+  match msEncodeEarly s frameSize maxDataBytes with
+  | some _ => true
+  | none =>
+    let f : Int := match s.streams with | e0 :: _ => frameSizeSelect frameSize s.variableDuration e0.fs | [] => 0
+    ((List.range s.streams.length).all fun i =>
+      match s.streams[i]?, o.obs[i]? with
+      | some e, some ob =>
+        !(decide (i < o.reached)) ||
+          (obsRange (msPre2 s i (msPrep s i e (o.rates.getD i 0) o.bw) o.lastRate) ob).isNone
+      | _, _ => true) &&
+    (match (msEncode s frameSize maxDataBytes o).streams with
+     | e0 :: es => !e0.first || es.all (fun e => e.first)
+     | [] => true) && decide (0 < f)
+
 /-! ### Layout validation (src/opus_multistream.c:41-96, opus_multistream_encoder.c:127-144) -/
 
 /-- `validate_layout`. -/
